@@ -41,6 +41,17 @@ def run(tier):
     else:
         others = others[::4]
     variants = []
+    merges = sorted(r.records[0]["merge_pairs"], key=lambda x: (x["index"], x["other"]))
+    for p in scoped:
+        if not p["kind"].startswith("sibling"):
+            continue
+        pool = rename.collect(p["prog"])["var"]
+        for rn in merges:
+            if max(rn["index"], rn["other"]) > len(pool):
+                continue
+            m = {pool[rn["index"] - 1]: pool[rn["other"] - 1]}
+            src, _ = render.program(rename.apply(p["prog"], m))
+            variants.append({"orig": p["src"], "variant": src, "map": m, "origin": "MC_C15/%s" % p["kind"], "renaming": rn})
     for p in scoped + base + others:
         names = rename.collect(p["prog"])
         allnames = [n for k in names for n in names[k]]
